@@ -2,22 +2,44 @@
 
 namespace photospline{
 
-std::vector<uint32_t> readOrder(fitsfile* fits, uint32_t ndim){
+namespace{
+///Read a header card which must hold a small non-negative integer.
+///The text of the value is checked before it is converted: cfitsio's own
+///conversion is not safe for long values which are not numbers, and would
+///silently wrap negative ones.
+///\return whether the card exists and holds such a number
+bool readUIntKey(fitsfile* fits, const char* name, uint32_t& result){
+	char text[FLEN_VALUE];
 	int error = 0;
+	fits_read_keyword(fits, name, text, NULL, &error);
+	if (error != 0)
+		return (false);
+	size_t len = strlen(text);
+	if (len == 0 || len > 10)
+		return (false);
+	for (size_t i = 0; i < len; i++) {
+		if (text[i] < '0' || text[i] > '9')
+			return (false);
+	}
+	unsigned long long value = strtoull(text, NULL, 10);
+	//no spline of an order anywhere near this can be stored
+	if (value > 0x7fffffffULL)
+		return (false);
+	result = value;
+	return (true);
+}
+}
+
+std::vector<uint32_t> readOrder(fitsfile* fits, uint32_t ndim){
 	std::vector<uint32_t> order(ndim);
 	//See if there is a single order value
-	fits_read_key(fits, TINT, "ORDER", &order[0], NULL, &error);
-	if (error != 0) {
-		error = 0;
-		
+	if (!readUIntKey(fits, "ORDER", order[0])) {
 		//There is not, so look for a separate order in each dimension
 		for (uint32_t i = 0; i < ndim; i++) {
 			std::ostringstream ss;
 			ss << "ORDER" << i;
-			fits_read_key(fits, TUINT, ss.str().c_str(), &order[i], NULL, &error);
-			if (error != 0) {
-				throw std::runtime_error("Needs real error message 6");
-			}
+			if (!readUIntKey(fits, ss.str().c_str(), order[i]))
+				throw std::runtime_error("Unable to read order for dimension "+std::to_string(i));
 		}
 	} else {
 		//all orders are the same
